@@ -9,7 +9,7 @@
 //     non-increasing feerates and the same diagram as the own chunking; diagram(output) >= diagram(topological input);
 //   * `optimal` reported: diagram >= diagram of EVERY topological order (enumerated, n <= exh) ; equal to the optimum obtained by
 //     repeatedly extracting the best closed subset (n <= sub; that method is cross-checked against the enumeration on the small
-//     graphs of the same run); chunks connected;
+//     graphs of the same run); (dis)connected chunks of a bare Linearize result are only counted, see next points;
 //   * PostLinearize: permutation, topological, diagram >= input, chunks connected;
 //   * the node's pipeline Linearize -> PostLinearize (as in txgraph.cpp): all of the above on the final order.
 // Small cases are logged in full and re-checked in Python with exact rationals.
